@@ -30,6 +30,10 @@ def obligations(tier):
         fix = {"dry": dry, "set": sv, "ign": ign, "gate": gate}
         label = ",".join(k if v else "!" + k for k, v in fix.items())
         obs.append(Ob(f"L3.update_skeleton[{label}]", "c10.py", "update_skeleton", {"fix": fix}, timeout=t))
+    obs.append(Ob("L3.update_skeleton[--tag / --date / --pin-date validation]", "c10.py", "update_skeleton",
+                  {"fix": {"dry": False, "ign": True, "gate": True, "validation": True, "f_commit": None, "f_tag": None, "f_push": None,
+                           "c_commit": True, "c_tag": True, "c_push": False, "allow_dirty": False, "fetch": True, "verbose2": False,
+                           "cli_msg": False, "scope": 0}}, timeout=t))
     # the dirty-check step itself, for both command sets (harness/c11.py)
     obs.append(Ob("L0.dirty_gate[git, 1 line]", "c11.py", "dirty_gate", {"n": 1, "k": [0, 0, 0]}, timeout=t))
     obs.append(Ob("L0.dirty_gate_hg", "c11.py", "dirty_gate_hg", {}, timeout=t))
